@@ -485,7 +485,7 @@ ensures
         'derive(Clone/Copy/PartialEq/Eq) on TokenKind, LiteralKind, Base: kept as derives (Verus built-in support)',
     ]
     U.trusted_decl = ["Cursor<'a> is an opaque struct (std::str::Chars inside); its state is modelled by rest/tok/prevc"]
-    U.not_verified = ['LexedStr::new (iterator from from_fn, nested str slices): its loop is restated as the chain lemma; LexedStr::{as_str,error,errors} (closures / binary_search_by_key)',
-                      'tokenize (std::iter::from_fn closure capturing the cursor): its loop contract is restated as lemma lex_tokens_partition',
+    U.not_verified = ['LexedStr::new: only the `for token in tokenize(..)` header is restated (as "call the iterator\'s next until None"); its prologue, loop body and tail are copied from /repo into c14_chain_table_from_tokens (D37); LexedStr::{as_str,error,errors} (closures / binary_search_by_key)',
+                      'tokenize: the `Cursor::new(input)` + `std::iter::from_fn(move || ..)` frame is matched textually; the closure body is copied from /repo into oq3_tokenize_next and verified against the contract of the iterator\'s next (D37)',
                       'Cursor::new (str::chars)', 'oq3_lexer::unescape (not used by the token table)']
     return U
